@@ -7,6 +7,10 @@ use super::*;
 verus! {
 
 #[verifier::external_type_specification]
+pub struct ExUpdateT(bgp::Update);
+
+
+#[verifier::external_type_specification]
 #[verifier::external_body]
 pub struct ExNlri(packet::Nlri);
 
@@ -28,6 +32,59 @@ pub assume_specification[ <packet::Nlri as PartialEq>::eq ](a: &packet::Nlri, b:
 
 pub broadcast axiom fn axiom_u32_pair_obeys_key_model()
     ensures #[trigger] vstd::std_specs::hash::obeys_key_model::<(u32, u32)>(),
+;
+
+
+// ---- R11 helpers for drain_messages: hash-map drains (std collection algebra; contracts assumed) -------------------
+/// `entries.extend(unreach.drain().map(|((_, path_id), nlri)| PathNlri { path_id, nlri }))`: empties the map and
+/// appends one PathNlri per entry (iteration order of a hash map: unspecified)
+#[verifier::external_body]
+pub fn vx_drain_unreach_into(m: &mut fnv::FnvHashMap<(u32, u32), packet::Nlri>, out: &mut Vec<packet::PathNlri>)
+    ensures
+        final(m)@ == Map::<(u32, u32), packet::Nlri>::empty(),
+        final(out)@.len() >= old(out)@.len(),
+        final(out)@.subrange(0, old(out)@.len() as int) == old(out)@,
+        forall|k: (u32, u32)| #![trigger old(m)@.contains_key(k)] old(m)@.contains_key(k) ==>
+            exists|i: int| #![trigger final(out)@[i]] old(out)@.len() <= i < final(out)@.len() && final(out)@[i].path_id == k.1 && final(out)@[i].nlri == old(m)@[k],
+        forall|i: int| #![trigger final(out)@[i]] old(out)@.len() <= i < final(out)@.len() ==>
+            exists|k: (u32, u32)| #![trigger old(m)@.contains_key(k)] old(m)@.contains_key(k) && final(out)@[i].path_id == k.1 && final(out)@[i].nlri == old(m)@[k],
+{ out.extend(m.drain().map(|((_, path_id), nlri)| packet::PathNlri { path_id, nlri })); }
+
+/// the drain-and-group loop of drain_messages: empties the map and returns its entries grouped by (attributes, next hop);
+/// every queued announcement is in exactly the group of its attributes / next hop, every group element is one
+pub type VxGroup = ((Arc<Vec<packet::Attribute>>, Option<Nexthop>), Vec<packet::PathNlri>);
+#[verifier::external_body]
+pub fn vx_group_reach(m: &mut fnv::FnvHashMap<(u32, u32), (packet::Nlri, Arc<Vec<packet::Attribute>>, Option<Nexthop>)>) -> (g: Vec<VxGroup>)
+    ensures
+        final(m)@ == Map::<(u32, u32), (packet::Nlri, Arc<Vec<packet::Attribute>>, Option<Nexthop>)>::empty(),
+        forall|k: (u32, u32)| #![trigger old(m)@.contains_key(k)] old(m)@.contains_key(k) ==>
+            exists|gi: int, ei: int| #![trigger g@[gi].1@[ei]] 0 <= gi < g@.len() && 0 <= ei < g@[gi].1@.len()
+                && g@[gi].0.0 == old(m)@[k].1 && g@[gi].0.1 == old(m)@[k].2
+                && g@[gi].1@[ei].path_id == k.1 && g@[gi].1@[ei].nlri == old(m)@[k].0,
+        forall|gi: int, ei: int| #![trigger g@[gi].1@[ei]] 0 <= gi < g@.len() && 0 <= ei < g@[gi].1@.len() ==>
+            exists|k: (u32, u32)| #![trigger old(m)@.contains_key(k)] old(m)@.contains_key(k)
+                && g@[gi].0.0 == old(m)@[k].1 && g@[gi].0.1 == old(m)@[k].2
+                && g@[gi].1@[ei].path_id == k.1 && g@[gi].1@[ei].nlri == old(m)@[k].0,
+{
+    let mut grouped: fnv::FnvHashMap<(Arc<Vec<packet::Attribute>>, Option<Nexthop>), Vec<packet::PathNlri>> = fnv::FnvHashMap::default();
+    for ((_, path_id), (nlri, attr, nexthop)) in m.drain() {
+        grouped.entry((attr, nexthop)).or_default().push(packet::PathNlri { path_id, nlri });
+    }
+    grouped.into_iter().collect()
+}
+/// `std::mem::take(&mut v)` on a vector: returns it and leaves an empty one
+#[verifier::external_body]
+pub fn vx_take_vec<T>(v: &mut Vec<T>) -> (r: Vec<T>)
+    ensures r == *old(v), final(v)@.len() == 0,
+{ std::mem::take(v) }
+/// `self.buffered.extend(msgs)`
+#[verifier::external_body]
+pub fn vx_vec_append_msgs(v: &mut Vec<bgp::Message>, msgs: Vec<bgp::Message>)
+    ensures final(v)@ == old(v)@ + msgs@,
+{ v.extend(msgs); }
+/// `Message::eor(family)`
+pub assume_specification[ bgp::Message::eor ](family: Family) -> (r: bgp::Message)
+    ensures r == bgp::Message::Update(bgp::Update::EndOfRib(family)),
 ;
 
 } // verus!
